@@ -12,6 +12,11 @@ BUDGET_S = {'quick': 80, 'thorough': 1200}
 RULE = ('from_sparse: exhaustive (data, column table, requested channels) with <= 2/3 spikes, <= 3/4 local '
         'columns (distinct entries, repeated -1), all ordered requests of <= 3 channels out of 0..3 plus an '
         'unknown one, trailing dimensions 0..2, int32/int64/uint32 column tables, empty spike lists; '
+        'probe-wide requests: column tables whose rows REPEAT (several spikes of one template, <= 12 rows x <= 12 local '
+        'columns) on probes of 64..6000 channels with 1..64 requested channels (strided over the whole probe / a '
+        'neighbourhood / random, sorted or shuffled, with and without the stored channels) so that the size relations '
+        'between (number of cells, number of requested channels, spread of the channel ids) vary over orders of '
+        'magnitude, at from_sparse level and through get_features on generated wide-probe datasets; '
         'get_features / get_template_features on generated TemplateModel datasets with and without a row '
         '(spike id) table and column table, spike subsets in any order incl. unstored spikes, channel '
         'permutations; PCA route: final features against the Lean model (exact projections of the stored waveforms '
@@ -88,7 +93,13 @@ def impl(case):
         res['second_differs'] = _decode(out2, case['trailing']) != res['ids']
         return res
     with C.scratch_dir() as d:
-        m = D.load(D.write_dataset(d, case['spec']))
+        params = D.write_dataset(d, case['spec'])
+        if case.get('wide'):
+            # wide probes: the inverse whitening matrix file is present, as in a real sorter output (the identity; the
+            # loader would otherwise invert an n_channels x n_channels matrix on every load)
+            import os
+            np.save(os.path.join(os.path.dirname(str(params)), 'whitening_mat_inv.npy'), np.eye(case['spec']['n_channels']))
+        m = D.load(params)
         try:
             sk = case.get('sidkind', 'int64')       # how the caller hands over the requested spike ids
             sid = list(case['spike_ids']) if sk == 'list' else np.array(case['spike_ids'], dtype=sk)
@@ -311,6 +322,11 @@ def tally(rep, case, impl_res, ans):
     if case['op'] == 'from_sparse':
         rep.count('trailing:%d' % case['trailing'])
         rep.count('cdtype:' + case.get('cdtype', 'int64'))
+        if case.get('wide'):
+            rep.count('wide:from_sparse probe-wide request')
+            rep.count('wide:from_sparse column table with a repeated row', int(len(set(map(tuple, case['cols']))) < case['nr']))
+            for t in _regime(case['nr'] * case['nloc'], case['chans']):
+                rep.count('wide:from_sparse ' + t)
     elif case['op'] == 'pca':
         ok = impl_res.get('ok') or {}
         if 'skip' in ok or 'sw_ids' not in ok:
@@ -328,6 +344,13 @@ def tally(rep, case, impl_res, ans):
     elif case['op'] in ('features', 'tfeatures'):
         nr, nloc, ind, rows = _store(case)
         rep.count('row_table:%s' % (rows is not None))
+        if case.get('wide'):
+            st = D.expanded(case['spec'])['spike_templates']
+            tt = [st[q_] for q_ in case['spike_ids']]
+            rep.count('wide:get_features probe-wide request')
+            rep.count('wide:get_features several requested spikes of one template', int(len(set(tt)) < len(tt)))
+            for t in _regime(len(case['spike_ids']) * nloc, case['chans']):
+                rep.count('wide:get_features ' + t)
         rep.count('col_table:%s' % (ind is not None))
         rep.count('spike_ids_as:%s' % case.get('sidkind', 'int64'))
         rep.count('channels_as:%s' % case.get('chkind', 'list'))
@@ -375,6 +398,36 @@ def _rows_distinct(nloc, pool):
             yield list(row)
 
 
+def _wide_request(rng, npr, own):
+    """1..64 distinct channels of a probe with `npr` channels: a regular subsampling of the whole probe, a
+    neighbourhood, random channels, or the stored ones (`own`) - alone or mixed in -, sorted or shuffled"""
+    kind = rng.pick(['stride', 'stride', 'stride', 'random', 'near', 'own', 'stride+own', 'random+own'])
+    if kind.startswith('stride'):
+        n = rng.randrange(2, 65)
+        step = max(1, npr // n)
+        ch = list(range(rng.randrange(step), npr, step))[:64]
+    elif kind.startswith('random'):
+        ch = rng.sample(range(npr), rng.randrange(1, min(npr, 64) + 1))
+    elif kind == 'near':
+        a = rng.randrange(npr - 1)
+        ch = list(range(a, min(npr, a + rng.randrange(1, 33))))
+    else:
+        ch = []
+    if kind.endswith('own') and own:
+        ch = ch + rng.sample(own, rng.randrange(1, len(own) + 1))
+    ch = sorted(set(ch))
+    if rng.random() < .5:
+        rng.shuffle(ch)
+    return ch
+
+
+def _regime(ncells, chans):
+    """where the request sits relative to the number of stored cells (input descriptors for the evidence)"""
+    spread = max(chans) - min(chans) if chans else 0
+    return ('spread of requested ids %s 6*(cells+channels)' % ('>' if spread > 6 * (ncells + len(chans)) else '<='),
+            'requested channels %s 10*cells^0.145' % ('>=' if len(chans) >= 10 * max(ncells, 1) ** 0.145 else '<'))
+
+
 def gen(tier, rng):
     q = tier == 'quick'
     k = 0
@@ -393,6 +446,33 @@ def gen(tier, rng):
                     cc = [[c if c >= 0 or cdt != 'uint32' else 2 ** 32 - 1 for c in row] for row in cols]
                     yield dict(p=PID, op='from_sparse', nr=nr, nloc=nloc, cols=cc, chans=chans, trailing=(k + ri) % 3,
                                cdtype=cdt, dtype=['float64', 'float32'][k % 2], chkind=['list', 'array', 'uint32', 'int32', 'uint16'][(k + ri) % 5])
+    # probe-wide requests against column tables with REPEATED rows (several spikes of the same template): the number of
+    # cells, the number of requested channels and the spread of their ids vary independently over orders of magnitude
+    for i in range(300 if q else 6000):
+        npr = rng.pick([64, 128, 384, 384, 768, 1500, 6000])
+        nloc = rng.randrange(1, 13)
+        nt = rng.randrange(1, 4)
+        tmpl = []
+        for _ in range(nt):
+            if rng.random() < .6:
+                a = rng.randrange(npr - nloc + 1)
+                row = list(range(a, a + nloc))
+                rng.shuffle(row)
+            else:
+                row = rng.sample(range(npr), nloc)
+            if rng.random() < .25:
+                row = [c if rng.random() < .7 else -1 for c in row]
+            tmpl.append(row)
+        nr = rng.pick([1, 2, 2, 3, 3, 4, 5, 6, 8, 12])
+        first = rng.randrange(nt)
+        which = [first if rng.random() < .7 else rng.randrange(nt) for _ in range(nr)]
+        own = sorted(set(c for t in which for c in tmpl[t] if c >= 0))
+        chans = _wide_request(rng, npr, own)
+        cdt = rng.pick(['int64', 'int32', 'uint32'])
+        cc = [[c if c >= 0 or cdt != 'uint32' else 2 ** 32 - 1 for c in tmpl[t]] for t in which]
+        yield dict(p=PID, op='from_sparse', nr=nr, nloc=nloc, cols=cc, chans=chans, trailing=rng.randrange(3), cdtype=cdt,
+                   dtype=rng.pick(['float64', 'float32']), chkind=rng.pick(['list', 'array', 'uint32', 'int32', 'uint16']),
+                   wide=True)
     # model level (every stored dimension >= 2: a stored dimension of size 1 is squeezed away by the
     # loader and is out of scope, DESIGN.md C04)
     for i in range(250 if q else 5000):
@@ -444,6 +524,39 @@ def gen(tier, rng):
         if 'template_feature_spike_ids' not in spec and i % 2:
             sids2 = [sids2[-1]] + sids2
         yield dict(p=PID, op='tfeatures', spec=spec, spike_ids=sids2, sidkind=rng.pick(['int64', 'list', 'uint64', 'uint32']))
+    # wide probes through get_features: few spikes, several of one template, requests spread over the whole probe
+    for i in range(20 if q else 400):
+        npr = rng.pick([96, 384, 384, 768])
+        spec = D.random_spec(rng, raw=False, feats=False, tfeats=False, ns=rng.randrange(4, 14), nc=npr, nsw=2,
+                             whiten=False, shanks=False)
+        ns, nt = len(spec['spike_samples']), len(spec['templates'])
+        st = D.expanded(spec)['spike_templates']
+        npcs, nloc = 2, rng.randrange(2, 13)
+        nsf = ns
+        if i % 2:
+            keep = sorted(rng.sample(range(ns), rng.randrange(3, ns + 1)))
+            spec['pc_feature_spike_ids'] = keep
+            nsf = len(keep)
+        spec['pc_features'] = [[[float((r * nloc + kk + 1) * SCALE + p) for kk in range(nloc)] for p in range(npcs)] for r in range(nsf)]
+        ind = []
+        for _ in range(nt):
+            a = rng.randrange(npr - nloc + 1)
+            row = list(range(a, a + nloc))
+            rng.shuffle(row)
+            ind.append(row)
+        spec['pc_feature_ind'] = ind
+        # 1..8 spikes, most of them of one template
+        t0 = st[rng.randrange(ns)]
+        same = [s_ for s_ in range(ns) if st[s_] == t0]
+        sids = rng.sample(same, rng.randrange(1, min(len(same), 8) + 1))
+        if rng.random() < .4:
+            sids = sids + rng.sample([s_ for s_ in range(ns) if s_ not in sids] or sids, 1)
+            sids = list(dict.fromkeys(sids))
+        if rng.random() < .5:
+            rng.shuffle(sids)
+        yield dict(p=PID, op='features', spec=spec, spike_ids=sids, npcs_pow2=True, chans=_wide_request(rng, npr, sorted(ind[t0])),
+                   chkind=rng.pick(['list', 'array', 'uint32', 'int32', 'uint64']),
+                   sidkind=rng.pick(['int64', 'int64', 'list', 'uint64', 'int32', 'uint32']), wide=True)
     # many spikes, few stored rows with large spike ids, requests in arbitrary order: the id lookups
     # (index in the row table) run in their sparse regime
     for i in range(4 if q else 60):
